@@ -183,6 +183,43 @@ class NumInterp:
             raise Unsupported("undef operand")
         raise Unsupported("operand kind " + k)
 
+    def aff_mul(self, a, b_):
+        """(ca*ka + ea) * (cb*kb + eb) with ka, kb input symbols -> affine form over {ka*kb, ka, kb} + error"""
+        if a.aff is None or b_.aff is None or len(a.aff) != 1 or len(b_.aff) != 1:
+            return None, None, None
+        (ka, ca), = a.aff.items()
+        (kb, cb), = b_.aff.items()
+        ra, rb = self.sym_range(ka), self.sym_range(kb)
+        if ra is None or rb is None:
+            return None, None, None
+
+        def imul(x, y):
+            c_ = [x[0] * y[0], x[0] * y[1], x[1] * y[0], x[1] * y[1]]
+            return (min(c_), max(c_))
+        aff = {"*".join(sorted([ka, kb])): ca * cb}
+        ma, mb = (a.elo + a.ehi) / 2, (b_.elo + b_.ehi) / 2      # midpoints go to the linear part
+        da, db = (a.elo - ma, a.ehi - ma), (b_.elo - mb, b_.ehi - mb)
+        aff[ka] = aff.get(ka, Fr(0)) + ca * mb
+        aff[kb] = aff.get(kb, Fr(0)) + cb * ma
+        const = ma * mb
+        A = (ca * ra[0], ca * ra[1]) if ca >= 0 else (ca * ra[1], ca * ra[0])
+        B = (cb * rb[0], cb * rb[1]) if cb >= 0 else (cb * rb[1], cb * rb[0])
+        A = (A[0] + ma, A[1] + ma)
+        B = (B[0] + mb, B[1] + mb)
+        t1 = imul(A, db)
+        t2 = imul(B, da)
+        t3 = imul(da, db)
+        elo = const + t1[0] + t2[0] + t3[0]
+        ehi = const + t1[1] + t2[1] + t3[1]
+        aff = {k: v for k, v in aff.items() if v != 0}
+        return aff, elo, ehi
+
+    def sym_range(self, k):
+        if k in self.inputs and "*" not in k:
+            _, _, lo, hi = self.inputs[k]
+            return (Fr(lo), Fr(hi))
+        return None
+
     def ev(self, kind, inst, status, detail, witness=None):
         self.events.append(Event(kind, inst, status, detail, witness))
 
@@ -306,14 +343,7 @@ class NumInterp:
                     mono[i] = "=" if (x == "=" and y == "=") else "+"
                 else:
                     mono[i] = None
-            aff = elo = ehi = None
-            # product symbol when both are exact single symbols
-            if a.aff is not None and b_.aff is not None and a.elo == a.ehi == 0 and b_.elo == b_.ehi == 0 \
-                    and len(a.aff) == 1 and len(b_.aff) == 1:
-                (ka, ca), = a.aff.items()
-                (kb, cb), = b_.aff.items()
-                key = "*".join(sorted([ka, kb]))
-                aff, elo, ehi = {key: ca * cb}, Fr(0), Fr(0)
+            aff, elo, ehi = self.aff_mul(a, b_)
             return self.norm_int(inst, b, lo, hi, lo_w, hi_w, mono, aff, elo, ehi, "mul")
         if op in ("udiv", "sdiv"):
             self.div_check(inst, b_)
@@ -506,6 +536,10 @@ class NumInterp:
                     aff = {k: v * c for k, v in b_.aff.items()}
                     e1, e2 = b_.elo * c, b_.ehi * c
                     elo, ehi = min(e1, e2) - re, max(e1, e2) + re
+                elif op == "fmul":
+                    aff, elo, ehi = self.aff_mul(a, b_)
+                    if aff is not None:
+                        elo, ehi = elo - re, ehi + re
             return AV("float", bits, lo, hi, lo_w, hi_w, mono, aff, elo, ehi)
         raise Unsupported("float op " + op)
 
